@@ -143,6 +143,17 @@ Definition mtmeth_iface_fns : program :=
     {| fn_name := "ProxyT::migrate_method"; fn_params := ["self"; "args"]; fn_consts := [];
      fn_body := (EBlock [SLet (PVar "msg") (ECon "MigrateMsg::new" [(EVar "args")]); STail (ECall "MigrateProxy::new" [(EField (EVar "self") "contract_addr"); (EVar "msg"); (EField (EVar "self") "app")])]) |} ].
 
+(* GENERATED code, for every contract / handler / trigger / id: the sub-message builders of reply handlers *)
+Definition reply_builder_fns : program :=
+  [ {| fn_name := "BuilderT::setter_typed"; fn_params := ["self"; "args"; "reply_on_hole"; "reply_id_hole"]; fn_consts := [];
+     fn_body := (EBlock [SLet (PVar "payload") (EMatch (ECon "Ok" [ECon "to_json_binary" [(EVar "args")]]) [(PCon "Ok" [PVar "try_v"], EVar "try_v"); (PCon "Err" [PVar "try_e"], EReturn (ECon "Err" [ECon "From::from" [EVar "try_e"]]))]); STail (ECon "Ok" [(ERecord "SubMsg" [("reply_on", (EVar "reply_on_hole")); ("id", (EVar "reply_id_hole")); ("payload", (EVar "payload"))] (Some (EVar "self")))])]) |};
+    {| fn_name := "BuilderT::setter_raw"; fn_params := ["self"; "args"; "reply_on_hole"; "reply_id_hole"]; fn_consts := [];
+     fn_body := (EBlock [SLet (PVar "payload") (EVar "args"); STail (ECon "Ok" [(ERecord "SubMsg" [("reply_on", (EVar "reply_on_hole")); ("id", (EVar "reply_id_hole")); ("payload", (EVar "payload"))] (Some (EVar "self")))])]) |};
+    {| fn_name := "BuilderT::converter_typed"; fn_params := ["self"; "args"; "reply_on_hole"; "reply_id_hole"]; fn_consts := [];
+     fn_body := (EBlock [SLet (PVar "payload") (EMatch (ECon "Ok" [ECon "to_json_binary" [(EVar "args")]]) [(PCon "Ok" [PVar "try_v"], EVar "try_v"); (PCon "Err" [PVar "try_e"], EReturn (ECon "Err" [ECon "From::from" [EVar "try_e"]]))]); STail (ECon "Ok" [(ERecord "SubMsg" [("reply_on", (EVar "reply_on_hole")); ("id", (EVar "reply_id_hole")); ("msg", (ECon "Into::into" [(EVar "self")])); ("payload", (EVar "payload")); ("gas_limit", (ECon "None" []))] None)])]) |};
+    {| fn_name := "BuilderT::converter_raw"; fn_params := ["self"; "args"; "reply_on_hole"; "reply_id_hole"]; fn_consts := [];
+     fn_body := (EBlock [SLet (PVar "payload") (EVar "args"); STail (ECon "Ok" [(ERecord "SubMsg" [("reply_on", (EVar "reply_on_hole")); ("id", (EVar "reply_id_hole")); ("msg", (ECon "Into::into" [(EVar "self")])); ("payload", (EVar "payload")); ("gas_limit", (ECon "None" []))] None)])]) |} ].
+
 (* sylvia/src/into_response.rs: IntoMsg / IntoResponse; `enabled_features` = the cargo features switched on *)
 Definition resp_program (enabled_features : list string) : program :=
   [ {| fn_name := "SubMsg::into_msg"; fn_params := ["self"]; fn_consts := [];
